@@ -1,49 +1,229 @@
 //go:build verif
 
+// Harness for C19 (erasure-coded broadcast): drives the real consensus/propeller packages and the
+// Lean model (c19drv) on the same inputs and evaluates the property's oracle on the real code.
+//
+// Sections (all run in both tiers; the thorough tier widens the spaces):
+//
+//	padding   Uvarint / PadMessage / UnpadMessage on boundary lengths and arbitrary (malformed) bytes
+//	merkle    merkle.New / Proof.Verify for 1..N leaves; tampered leaf / index / sibling / length
+//	rs        the MDS law on the real klauspost codec through juno's EncodeData / RecoverData:
+//	          every subset of shards for small (k, parity), plus single-shard corruptions
+//	e2e       CreatePropellerUnits -> every subset of units -> ConstructMessageFromUnits
+//	sched     NewScheduler / ValidateShardOrigin / ShardIndexForPublisher over small committees
+//	validator UnitValidator.Validate behind the processor's per-message-key routing: honest units
+//	          (must be accepted) and every single-field corruption (must be rejected or harmless)
 package main
 
 import (
-	"crypto/rand"
+	"encoding/json"
 	"fmt"
+	"os"
+	"strings"
+	"sync"
 
-	"github.com/NethermindEth/juno/consensus/propeller"
-	"github.com/NethermindEth/juno/consensus/propeller/merkle"
-	"github.com/libp2p/go-libp2p/core/crypto"
-	"github.com/libp2p/go-libp2p/core/peer"
 	"verif/harness/lib"
 )
 
-func main() {
-	priv, pub, _ := crypto.GenerateEd25519Key(rand.Reader)
-	cid := propeller.CommitteeID{1}
-	msg := []byte("hello world, this is a message")
-	units, err := propeller.CreatePropellerUnits(priv, &cid, propeller.Nonce(7), msg, 3, 2)
-	fmt.Println(len(units), err)
-	for i := range units {
-		u := &units[i]
-		root := merkle.Hash(u.MessageRoot)
-		fmt.Println(i, "raw", u.MerkleProof.Verify(&root, u.ShardData[0], uint32(u.ShardIndex)),
-			"marshal", u.MerkleProof.Verify(&root, u.ShardData.MarshalProto(), uint32(u.ShardIndex)),
-			"nonce", u.Nonce,
-			"sig(unit nonce)", propeller.VerifyMessageSignature(pub, &u.MessageRoot, &u.CommitteeID, u.Nonce, u.Signature),
-			"sig(7)", propeller.VerifyMessageSignature(pub, &u.MessageRoot, &u.CommitteeID, 7, u.Signature))
-	}
-	for mask := 0; mask < 32; mask++ {
-		ptrs := make([]*propeller.Unit, 5)
-		cnt := 0
-		for i := 0; i < 5; i++ {
-			if mask>>i&1 == 1 {
-				c := units[i]
-				c.ShardData = propeller.ShardData{append([]byte{}, units[i].ShardData[0]...)}
-				ptrs[i] = &c
-				cnt++
-			}
-		}
-		var m []byte
-		e, p, _ := lib.Try(func() error { var err error; m, _, _, err = propeller.ConstructMessageFromUnits(ptrs, 0, 3, 2); return err })
-		fmt.Printf("mask %05b cnt %d panic=%v err=%v ok=%v\n", mask, cnt, p, e, string(m) == string(msg))
-	}
-	e, p, _ := lib.Try(func() error { _, err := propeller.UnpadMessage([]byte{0xff, 0xff, 0xff, 0xff, 0xff, 0xff, 0xff, 0xff, 0xff, 1, 0, 0}); return err })
-	fmt.Println("unpad", e, p)
-	_ = peer.ID("")
+// cfgFlags mirrors Juno.C19.Cfg: which variant of the code is under test (probed, see probe.go).
+type cfgFlags struct {
+	UnpadGuard         bool `json:"unpad_guard"`
+	RootFromPresent    bool `json:"root_from_present"`
+	ShardingLeafProto  bool `json:"sharding_leaf_proto"`
+	ValidatorLeafProto bool `json:"validator_leaf_proto"`
+	NonceSet           bool `json:"nonce_set"`
 }
+
+func b01(b bool) string {
+	if b {
+		return "1"
+	}
+	return "0"
+}
+
+func (c cfgFlags) String() string {
+	return b01(c.UnpadGuard) + b01(c.RootFromPresent) + b01(c.ShardingLeafProto) + b01(c.ValidatorLeafProto) + b01(c.NonceSet)
+}
+
+type hctx struct {
+	f   lib.Flags
+	res *lib.Result
+	drv *lib.Driver
+	dmu sync.Mutex
+	tt  *termTable
+	cfg cfgFlags
+	// driverBroken is set after the first driver failure: the sections keep running their
+	// oracles on the real code, without correspondence.
+	driverBroken bool
+}
+
+// ask sends one request to the Lean driver ("" if the driver is gone).
+func (h *hctx) ask(line string) string {
+	h.dmu.Lock()
+	defer h.dmu.Unlock()
+	if h.driverBroken || h.drv == nil {
+		return ""
+	}
+	out, err := h.drv.Ask(line)
+	if err != nil {
+		h.driverBroken = true
+		h.res.Note("driver failed: %v (request %.200q)", err, line)
+		return ""
+	}
+	return out
+}
+
+// compare records one model/implementation comparison.
+func (h *hctx) compare(sig string, input any, model, impl string) bool {
+	if model == "" { // driver gone: nothing to compare
+		return true
+	}
+	h.res.Compared(1)
+	if model != impl {
+		h.res.Mismatch(lib.Mismatch{Sig: sig, Input: input, Model: clip(model), Impl: clip(impl)})
+		return false
+	}
+	return true
+}
+
+func clip(s string) string {
+	if len(s) > 600 {
+		return s[:600] + "…"
+	}
+	return s
+}
+
+func (h *hctx) violate(sig, what string, replay map[string]any) {
+	h.res.Violate(lib.Violation{Sig: sig, What: what, Replay: replay})
+}
+
+func main() {
+	f := lib.ParseFlags()
+	res := lib.NewResult("case = one call sequence on the real propeller code (pad/unpad of a byte string, Merkle tree + " +
+		"tampered proof, shard subset reconstruction, validator verdict on an honest or corrupted unit); non-trivial = " +
+		"non-empty message or byte string / at least 2 shards / a unit that passes the origin check or is corrupted in exactly one field")
+	h := &hctx{f: f, res: res, tt: newTermTable()}
+	drv, err := lib.StartDriver(f.Driver)
+	if err != nil {
+		res.Note("driver: %v", err)
+		h.driverBroken = true
+	} else {
+		h.drv = drv
+		defer drv.Close()
+	}
+	h.cfg = probeVariant(h)
+	res.Note("code variant probed on the real code (model driven with the same flags): %+v", h.cfg)
+
+	if f.Replay != "" {
+		runReplay(h, f.Replay)
+		lib.Finish(f, res)
+	}
+
+	r := lib.NewRNG(f.Seed)
+	secPadding(h, r.Fork(1))
+	secMerkle(h, r.Fork(2))
+	secRS(h, r.Fork(3))
+	secE2E(h, r.Fork(4))
+	secSched(h, r.Fork(5))
+	secValidator(h, r.Fork(6))
+	ex := false
+	res.Exhaustive = &ex
+	lib.Finish(f, res)
+}
+
+// runReplay re-runs exactly the input of a replay file written by an earlier run.
+func runReplay(h *hctx, path string) {
+	raw, err := os.ReadFile(path)
+	if err != nil {
+		h.res.Note("cannot read replay: %v", err)
+		return
+	}
+	var file struct {
+		Replay map[string]any `json:"replay"`
+	}
+	if err := json.Unmarshal(raw, &file); err != nil || file.Replay == nil {
+		// maybe the bare replay object
+		if err2 := json.Unmarshal(raw, &file.Replay); err2 != nil {
+			h.res.Note("cannot parse replay: %v", err)
+			return
+		}
+	}
+	rp := file.Replay
+	kind, _ := rp["kind"].(string)
+	switch kind {
+	case "unpad":
+		b, _ := unhx(str(rp["padded"]))
+		unpadCase(h, b)
+	case "pad":
+		b, _ := unhx(str(rp["msg"]))
+		padCase(h, b, num(rp["k"]))
+	case "merkle":
+		leaves, _ := parseHexList(str(rp["leaves"]))
+		merkleCase(h, leaves, lib.NewRNG(uint64(num(rp["rng"]))), true)
+	case "rs":
+		data, _ := unhx(str(rp["data"]))
+		rsCase(h, num(rp["k"]), num(rp["p"]), data, lib.NewRNG(uint64(num(rp["rng"]))))
+	case "e2e":
+		msg, _ := unhx(str(rp["msg"]))
+		e2eCase(h, num(rp["k"]), num(rp["p"]), msg, uint64(num(rp["nonce"])), lib.NewRNG(uint64(num(rp["rng"]))), 1<<20)
+	case "sched":
+		schedCase(h, num(rp["n"]), num(rp["local"]))
+	case "validator":
+		msg, _ := unhx(str(rp["msg"]))
+		validatorCase(h, num(rp["n"]), num(rp["local"]), num(rp["publisher"]), msg, uint64(num(rp["nonce"])),
+			lib.NewRNG(uint64(num(rp["rng"]))))
+	default:
+		h.res.Note("replay of kind %q is not supported", kind)
+	}
+}
+
+func str(v any) string {
+	s, _ := v.(string)
+	return s
+}
+
+func num(v any) int {
+	switch x := v.(type) {
+	case float64:
+		return int(x)
+	case int:
+		return x
+	}
+	return 0
+}
+
+// classify maps an error text of the real code to the model's error class ("other" if the text is
+// not recognised: then only accept/reject is compared, so rewording a message is not an alarm).
+func classify(err error, table [][2]string) string {
+	if err == nil {
+		return "ok"
+	}
+	msg := err.Error()
+	for _, e := range table {
+		if strings.Contains(msg, e[0]) {
+			return "err:" + e[1]
+		}
+	}
+	return "err:other"
+}
+
+// sameVerdict compares a model answer with a classified implementation answer; an unrecognised
+// implementation error class matches any model error.
+func sameVerdict(model, impl string) bool {
+	if model == impl {
+		return true
+	}
+	if impl == "err:other" && strings.HasPrefix(model, "err:") {
+		return true
+	}
+	return false
+}
+
+func firstWord(s string) string {
+	if i := strings.IndexByte(s, ' '); i >= 0 {
+		return s[:i]
+	}
+	return s
+}
+
+func sprint(a ...any) string { return fmt.Sprint(a...) }
